@@ -59,6 +59,13 @@ def fix_pairs(s: str) -> str:
 
 
 def rand_str(rng, maxlen: int = 8, wf: bool = True, stats: dict | None = None) -> str:
+    from . import mined
+    if mined.strs() and rng.random() < 0.12:         # literals the current source has and the pinned tree lacks (empty on the unchanged tree)
+        if stats is not None:
+            stats["mined"] = stats.get("mined", 0) + 1
+        s = rng.choice(mined.strs())
+        r = rng.random()
+        return s if r < 0.6 else (s + rand_char(rng, "ascii")) if r < 0.8 else (rand_char(rng, "ascii") + s)
     cls = rng.choice(STR_CLASSES)
     if stats is not None:
         stats[cls] = stats.get(cls, 0) + 1
@@ -83,6 +90,9 @@ FLOAT_EDGES = [0.0, -0.0, 1.0, -1.0, 0.5, 1.5, 0.1, 1e16, 1e22, 1e23, 1e-5, 1e-7
 
 
 def rand_int(rng) -> int:
+    from . import mined
+    if mined.ints() and rng.random() < 0.15:
+        return rng.choice(mined.near_ints())
     r = rng.random()
     if r < 0.4:
         return rng.choice(INT_EDGES)
